@@ -1,5 +1,7 @@
 import CsVerif.Gen.PyC2
-import CsVerif.Lemmas.C05
+import CsVerif.Props.C05
+import CsVerif.Model.C06
+import CsVerif.Lemmas.C05Gen
 /-!
 C05 — the tie between the source text and the model, by translation.
 
@@ -7,12 +9,238 @@ C05 — the tie between the source text and the model, by translation.
 `EncryptedPacket.raise_for_signature`, `derive_aes_hmac_keys`, `pad`, `encrypt_data`, `decrypt_data`, `decrypt_packet`
 and `encrypt_packet` (dissect/cobaltstrike/c2.py).  AES-CBC / HMAC-SHA256 / SHA-256 are parameters of the translated
 definitions just as they are fields of `C05.Crypto`.  The theorems state that each translated definition computes, for
-all arguments and all primitives, what the hand-written model of `Model/C05.lean` computes.
+all arguments and all primitives, what the hand-written model of `Model/C05.lean` computes — so the theorems of
+`Props/C05.lean` are theorems about the function text as it stands now (the last section transfers the headline ones),
+and an edit of one of these functions that changes its meaning breaks the corresponding proof here.
+(`PyRt` = the Python semantics of the operations the translation uses, `lean/CsVerif/Model/PyRt.lean`.)
+Helper lemmas: `Lemmas/C05Gen.lean`.
 -/
 namespace C05Gen
 open PyRt
 
 /-- the translated record and the model's record -/
 def toPacket (p : Gen.PyC2.EncryptedPacket) : C05.Packet := ⟨p.ciphertext, p.signature⟩
+
+/-! ### pad -/
+
+/-- `pad(data)` with the default block size never raises and is the model's `pad` -/
+theorem gen_pad (data : Bytes) : Gen.PyC2.pad data 16 = .ok (C05.pad data) := pad_16 data
+
+/-- every positive block size -/
+theorem gen_pad_to (data : Bytes) (bs : Nat) (h : 0 < bs) :
+    Gen.PyC2.pad data (bs : Int) = .ok (C05.padTo bs data) := pad_nat data bs h
+
+/-- `block_size = 0`: ZeroDivisionError (outside the model, which has no such argument) -/
+theorem gen_pad_zero (data : Bytes) : Gen.PyC2.pad data 0 = .error .zeroDivisionError := pad_zero data
+
+/-- a negative block size returns the data unchanged (`b"A" * negative` is empty); also outside the model -/
+theorem gen_pad_negative (data : Bytes) (bs : Int) (h : bs < 0) : Gen.PyC2.pad data bs = .ok data :=
+  pad_neg data bs h
+
+/-! ### encrypt_data / decrypt_data / raise_for_signature -/
+
+theorem gen_encrypt_data (c : C05.Crypto) (data : Bytes) (ak : Option Bytes) (iv : Bytes) :
+    Gen.PyC2.encrypt_data c.aesCbcEnc data ak iv = C05.encryptData c data ak iv :=
+  encrypt_data_eq c data ak iv
+
+theorem gen_decrypt_data (c : C05.Crypto) (data : Bytes) (ak : Option Bytes) (iv : Bytes) :
+    Gen.PyC2.decrypt_data c.aesCbcDec data ak iv = C05.decryptData c data ak iv :=
+  decrypt_data_eq c data ak iv
+
+theorem gen_raise_for_signature (c : C05.Crypto) (p : Gen.PyC2.EncryptedPacket) (hk : Bytes) :
+    Gen.PyC2.EncryptedPacket_raise_for_signature c.hmacSha256 p hk = C05.raiseForSignature c (toPacket p) hk :=
+  raise_for_signature_eq c p.ciphertext p.signature hk
+
+/-! ### encrypt_packet / decrypt_packet -/
+
+/-- (`hmac_key` is a bytes parameter of the translated function; the model's `none` case is the TypeError of
+`hmac.new(None, …)`, which the translation does not cover) -/
+theorem gen_encrypt_packet (c : C05.Crypto) (pt : Bytes) (ak : Option Bytes) (hk iv : Bytes) :
+    (Gen.PyC2.encrypt_packet c.aesCbcEnc c.hmacSha256 pt ak hk iv).map toPacket
+      = C05.encryptPacket c pt ak (some hk) iv :=
+  encrypt_packet_eq c pt ak hk iv
+
+theorem gen_decrypt_packet (c : C05.Crypto) (p : Gen.PyC2.EncryptedPacket) (ak hk : Option Bytes) (iv : Bytes)
+    (verify : Bool) :
+    Gen.PyC2.decrypt_packet c.hmacSha256 c.aesCbcDec p ak hk iv verify
+      = C05.decryptPacket c (toPacket p) ak hk iv verify :=
+  decrypt_packet_eq c p.ciphertext p.signature ak hk iv verify
+
+/-! ### framing -/
+
+theorem gen_dumps (p : Gen.PyC2.EncryptedPacket) : Gen.PyC2.EncryptedPacket_dumps p = C05.dumps (toPacket p) :=
+  dumps_eq p.ciphertext p.signature
+
+/-! ### derive_aes_hmac_keys -/
+
+theorem gen_derive_aes_hmac_keys (sha256 : Bytes → Bytes) (r : Bytes) :
+    Gen.PyC2.derive_aes_hmac_keys sha256 r = .ok ((sha256 r).take 16, (sha256 r).drop 16) :=
+  derive_eq sha256 r
+
+/-- … which is `deriveKeys` of the C06 model -/
+theorem gen_derive_aes_hmac_keys_c06 (c : C06.Crypto) (r : Bytes) :
+    Gen.PyC2.derive_aes_hmac_keys c.sha256 r = .ok (C06.deriveKeys c r) :=
+  derive_eq c.sha256 r
+
+/-- with a 32-byte digest both keys have 16 bytes and together they are the digest -/
+theorem gen_derived_key_lengths (sha256 : Bytes → Bytes) (hlen : ∀ x, (sha256 x).length = 32) (r : Bytes) :
+    ∃ ak hk, Gen.PyC2.derive_aes_hmac_keys sha256 r = .ok (ak, hk) ∧ ak.length = 16 ∧ hk.length = 16 ∧
+      ak ++ hk = sha256 r := by
+  refine ⟨_, _, derive_eq sha256 r, ?_, ?_, List.take_append_drop 16 _⟩
+  · rw [List.length_take, hlen]; rfl
+  · rw [List.length_drop, hlen]
+
+/-! ### The headline theorems of Props/C05.lean, for the translated definitions -/
+
+/-- Round trip: decrypting (with verification) what the translated `encrypt_packet` produced gives the padded
+plaintext, under the hypotheses of `C05.decrypt_encrypt`. -/
+theorem gen_decrypt_encrypt (c : C05.Crypto) (L : C05.CryptoLaws c) (pt k hk iv : Bytes)
+    (hkv : k.length = 16 ∨ k.length = 24 ∨ k.length = 32) (hiv : iv.length = 16) (hne : hk ≠ []) :
+    ∃ pkt, Gen.PyC2.encrypt_packet c.aesCbcEnc c.hmacSha256 pt (some k) hk iv = .ok pkt ∧
+      Gen.PyC2.decrypt_packet c.hmacSha256 c.aesCbcDec pkt (some k) (some hk) iv true = .ok (C05.pad pt) := by
+  obtain ⟨mp, h1, h2⟩ := C05.decrypt_encrypt c L pt k hk iv hkv hiv hne
+  rw [← gen_encrypt_packet] at h1
+  cases hg : Gen.PyC2.encrypt_packet c.aesCbcEnc c.hmacSha256 pt (some k) hk iv with
+  | error e => rw [hg] at h1; cases h1
+  | ok pkt =>
+    rw [hg] at h1
+    have hp : toPacket pkt = mp := by injection h1
+    subst hp
+    exact ⟨pkt, rfl, by rw [gen_decrypt_packet]; exact h2⟩
+
+/-- … and without verification, whatever HMAC key (or none) the receiver has -/
+theorem gen_decrypt_encrypt_unverified (c : C05.Crypto) (L : C05.CryptoLaws c) (pt k hk iv : Bytes)
+    (hk' : Option Bytes) (hkv : k.length = 16 ∨ k.length = 24 ∨ k.length = 32) (hiv : iv.length = 16) :
+    ∃ pkt, Gen.PyC2.encrypt_packet c.aesCbcEnc c.hmacSha256 pt (some k) hk iv = .ok pkt ∧
+      Gen.PyC2.decrypt_packet c.hmacSha256 c.aesCbcDec pkt (some k) hk' iv false = .ok (C05.pad pt) := by
+  obtain ⟨mp, h1, h2⟩ := C05.decrypt_encrypt_unverified c L pt k hk iv hk' hkv hiv
+  rw [← gen_encrypt_packet] at h1
+  cases hg : Gen.PyC2.encrypt_packet c.aesCbcEnc c.hmacSha256 pt (some k) hk iv with
+  | error e => rw [hg] at h1; cases h1
+  | ok pkt =>
+    rw [hg] at h1
+    have hp : toPacket pkt = mp := by injection h1
+    subst hp
+    exact ⟨pkt, rfl, by rw [gen_decrypt_packet]; exact h2⟩
+
+/-- the signature of a packet made by the translated `encrypt_packet` is `HMAC(hk, ciphertext)[:16]` and has 16 bytes -/
+theorem gen_signature_is_mac (c : C05.Crypto) (L : C05.CryptoLaws c) (pt : Bytes) (ak : Option Bytes) (hk iv : Bytes)
+    (pkt : Gen.PyC2.EncryptedPacket)
+    (h : Gen.PyC2.encrypt_packet c.aesCbcEnc c.hmacSha256 pt ak hk iv = .ok pkt) :
+    pkt.signature = (c.hmacSha256 hk pkt.ciphertext).take 16 ∧ pkt.signature.length = 16 := by
+  have hm : C05.encryptPacket c pt ak (some hk) iv = .ok (toPacket pkt) := by
+    rw [← gen_encrypt_packet, h]; rfl
+  obtain ⟨_, h', _, hh, _, hs⟩ := C05.signature_is_mac c pt ak (some hk) iv _ hm
+  cases hh
+  exact ⟨hs, C05.signature_length c L pt ak (some hk) iv _ hm⟩
+
+/-- Complete description of the translated `decrypt_packet(..., verify=True)`: the result of `decrypt_data` when the
+packet verifies (key present, non-empty, truncated MAC equal to the signature), ValueError otherwise. -/
+theorem gen_verify_decision (c : C05.Crypto) (p : Gen.PyC2.EncryptedPacket) (ak hk : Option Bytes) (iv : Bytes) :
+    Gen.PyC2.decrypt_packet c.hmacSha256 c.aesCbcDec p ak hk iv true =
+      if C05.Verifies c (toPacket p) hk then Gen.PyC2.decrypt_data c.aesCbcDec p.ciphertext ak iv
+      else .error .valueError := by
+  rw [gen_decrypt_packet, gen_decrypt_data, C05.verify_decision]
+  rfl
+
+/-- Verification precedes decryption: with `verify=True` and a signature that is not the truncated MAC under the
+given key (or no usable key at all), the translated `decrypt_packet` returns ValueError for EVERY function put in the
+place of AES-CBC decryption — its output, exceptions included, cannot influence the outcome. -/
+theorem gen_verify_before_decrypt (hmacSha256 : Bytes → Bytes → Bytes) (aesCbcDec : Bytes → Bytes → Bytes → Py Bytes)
+    (p : Gen.PyC2.EncryptedPacket) (ak hk : Option Bytes) (iv : Bytes)
+    (hbad : ∀ k, hk = some k → k ≠ [] → (hmacSha256 k p.ciphertext).take 16 ≠ p.signature) :
+    Gen.PyC2.decrypt_packet hmacSha256 aesCbcDec p ak hk iv true = .error .valueError := by
+  let c : C05.Crypto := ⟨aesCbcDec, aesCbcDec, hmacSha256⟩
+  have hrej : ¬ C05.Verifies c (toPacket p) hk := by
+    cases hk with
+    | none => exact fun h => h
+    | some k => exact fun hv => hbad k rfl hv.1 hv.2
+  have h := (C05.no_plaintext_on_reject c (toPacket p) ak hk iv hrej).1
+  exact (gen_decrypt_packet c p ak hk iv true).trans h
+
+/-- in particular a rejected packet gives the same answer under any two AES implementations -/
+theorem gen_reject_independent_of_aes (hmacSha256 : Bytes → Bytes → Bytes)
+    (dec dec' : Bytes → Bytes → Bytes → Py Bytes) (p : Gen.PyC2.EncryptedPacket) (ak hk : Option Bytes) (iv : Bytes)
+    (hbad : ∀ k, hk = some k → k ≠ [] → (hmacSha256 k p.ciphertext).take 16 ≠ p.signature) :
+    Gen.PyC2.decrypt_packet hmacSha256 dec p ak hk iv true = Gen.PyC2.decrypt_packet hmacSha256 dec' p ak hk iv true := by
+  rw [gen_verify_before_decrypt hmacSha256 dec p ak hk iv hbad, gen_verify_before_decrypt hmacSha256 dec' p ak hk iv hbad]
+
+/-- a packet made by the translated `encrypt_packet` whose signature was changed is rejected -/
+theorem gen_tampered_signature_rejected (c : C05.Crypto) (pt : Bytes) (ak : Option Bytes) (hk iv : Bytes)
+    (pkt : Gen.PyC2.EncryptedPacket) (sig' : Bytes) (hne : hk ≠ [])
+    (henc : Gen.PyC2.encrypt_packet c.aesCbcEnc c.hmacSha256 pt ak hk iv = .ok pkt) (hs : sig' ≠ pkt.signature) :
+    Gen.PyC2.decrypt_packet c.hmacSha256 c.aesCbcDec ⟨pkt.ciphertext, sig'⟩ ak (some hk) iv true
+      = .error .valueError := by
+  have hm : C05.encryptPacket c pt ak (some hk) iv = .ok (toPacket pkt) := by
+    rw [← gen_encrypt_packet, henc]; rfl
+  rw [gen_decrypt_packet]
+  exact C05.tampered_signature_of_encrypted_rejected c pt ak hk iv (toPacket pkt) sig' hne hm hs
+
+/-- the framed form of a packet made by the translated functions: 4-byte big-endian length, ciphertext, signature -/
+theorem gen_dumps_spec (p : Gen.PyC2.EncryptedPacket) :
+    Gen.PyC2.EncryptedPacket_dumps p =
+      if p.ciphertext.length + p.signature.length < 2 ^ 32 then
+        .ok (C20.toBytesU .big 4 (p.ciphertext.length + p.signature.length) ++ (p.ciphertext ++ p.signature))
+      else .error .overflowError := by
+  rw [gen_dumps, C05.dumps_spec]
+  rfl
+
+/-! ### Non-vacuity: the translated definitions evaluated on concrete inputs (toy primitives of `C05.toyCrypto`) -/
+
+example : Gen.PyC2.pad [1, 2, 3] 16 = .ok ([1, 2, 3] ++ List.replicate 13 0x41) := by decide
+example : Gen.PyC2.pad (List.replicate 16 7) 16 = .ok (List.replicate 16 7 ++ List.replicate 16 0x41) := by decide
+example : Gen.PyC2.pad [1, 2, 3] 2 = .ok [1, 2, 3, 0x41] := by decide
+example : Gen.PyC2.pad [1, 2, 3] 0 = .error .zeroDivisionError := by decide
+example : Gen.PyC2.pad [1, 2, 3, 4] (-3) = .ok [1, 2, 3, 4] := by decide
+example : Gen.PyC2.encrypt_data C05.toyCrypto.aesCbcEnc [1] none [] = .error .valueError := by decide
+example : Gen.PyC2.encrypt_data C05.toyCrypto.aesCbcEnc [1] (some [1, 2]) (List.replicate 16 1) = .error .valueError := by
+  decide
+example : Gen.PyC2.encrypt_data C05.toyCrypto.aesCbcEnc [1, 2, 3] (some (List.replicate 16 9)) (List.replicate 16 1)
+    = .ok ([8, 11, 10] ++ List.replicate 13 0x48) := by decide
+example : Gen.PyC2.decrypt_data C05.toyCrypto.aesCbcDec ([8, 11, 10] ++ List.replicate 13 0x48)
+    (some (List.replicate 16 9)) (List.replicate 16 1) = .ok ([1, 2, 3] ++ List.replicate 13 0x41) := by decide
+example : Gen.PyC2.encrypt_packet C05.toyCrypto.aesCbcEnc C05.toyCrypto.hmacSha256 [1, 2, 3]
+      (some (List.replicate 16 9)) [5] (List.replicate 16 1)
+    = .ok ⟨[8, 11, 10] ++ List.replicate 13 0x48, [5, 8, 11, 10] ++ List.replicate 12 0x48⟩ := by decide
+example : Gen.PyC2.decrypt_packet C05.toyCrypto.hmacSha256 C05.toyCrypto.aesCbcDec
+      ⟨[8, 11, 10] ++ List.replicate 13 0x48, [5, 8, 11, 10] ++ List.replicate 12 0x48⟩
+      (some (List.replicate 16 9)) (some [5]) (List.replicate 16 1) true
+    = .ok ([1, 2, 3] ++ List.replicate 13 0x41) := by decide
+/-- one changed signature byte: ValueError -/
+example : Gen.PyC2.decrypt_packet C05.toyCrypto.hmacSha256 C05.toyCrypto.aesCbcDec
+      ⟨[8, 11, 10] ++ List.replicate 13 0x48, [5, 8, 11, 11] ++ List.replicate 12 0x48⟩
+      (some (List.replicate 16 9)) (some [5]) (List.replicate 16 1) true
+    = .error .valueError := by decide
+/-- the same packet without verification decrypts -/
+example : Gen.PyC2.decrypt_packet C05.toyCrypto.hmacSha256 C05.toyCrypto.aesCbcDec
+      ⟨[8, 11, 10] ++ List.replicate 13 0x48, [5, 8, 11, 11] ++ List.replicate 12 0x48⟩
+      (some (List.replicate 16 9)) none (List.replicate 16 1) false
+    = .ok ([1, 2, 3] ++ List.replicate 13 0x41) := by decide
+/-- empty / missing HMAC key with `verify=True` -/
+example : Gen.PyC2.decrypt_packet C05.toyCrypto.hmacSha256 C05.toyCrypto.aesCbcDec ⟨[], []⟩ none (some []) [] true
+    = .error .valueError := by decide
+example : Gen.PyC2.decrypt_packet C05.toyCrypto.hmacSha256 C05.toyCrypto.aesCbcDec ⟨[], []⟩ none none [] true
+    = .error .valueError := by decide
+example : Gen.PyC2.EncryptedPacket_raise_for_signature C05.toyCrypto.hmacSha256
+    ⟨[1, 2], [7, 1, 2] ++ List.replicate 13 0⟩ [7] = .ok () := by decide
+example : Gen.PyC2.EncryptedPacket_raise_for_signature C05.toyCrypto.hmacSha256
+    ⟨[1, 3], [7, 1, 2] ++ List.replicate 13 0⟩ [7] = .error .valueError := by decide
+example : Gen.PyC2.EncryptedPacket_dumps ⟨[0xaa], List.replicate 16 0xbb⟩
+    = .ok ([0, 0, 0, 17, 0xaa] ++ List.replicate 16 0xbb) := by decide
+example : Gen.PyC2.derive_aes_hmac_keys (C06.toyCrypto 64).sha256 [1, 2, 3]
+    = .ok ([1, 2, 3] ++ List.replicate 13 0, List.replicate 16 0) := by decide
+/-- the hypotheses of `gen_decrypt_encrypt` are satisfiable -/
+example : ∃ pkt, Gen.PyC2.encrypt_packet C05.toyCrypto.aesCbcEnc C05.toyCrypto.hmacSha256 [1, 2, 3]
+      (some (List.replicate 16 9)) [5] (List.replicate 16 1) = .ok pkt ∧
+    Gen.PyC2.decrypt_packet C05.toyCrypto.hmacSha256 C05.toyCrypto.aesCbcDec pkt (some (List.replicate 16 9)) (some [5])
+      (List.replicate 16 1) true = .ok (C05.pad [1, 2, 3]) :=
+  gen_decrypt_encrypt C05.toyCrypto C05.toy_laws [1, 2, 3] (List.replicate 16 9) [5] (List.replicate 16 1)
+    (by decide) (by decide) (by decide)
+/-- … and so is the hypothesis of `gen_verify_before_decrypt` (a signature that is not the MAC) -/
+example : ∀ k, (some [7] : Option Bytes) = some k → k ≠ [] →
+    (C05.toyCrypto.hmacSha256 k [1, 3]).take 16 ≠ [7, 1, 2] ++ List.replicate 13 0 := by
+  intro k hk _
+  cases hk
+  decide
 
 end C05Gen
